@@ -613,6 +613,8 @@ class KInterp:
             if e.attr in ("values", "T"):
                 return self.eval(e.value, st)
             base = self.eval(e.value, st)
+            if isinstance(base, PyVal) and base.v == "<cls>" and isinstance(e.value, ast.Name) and e.value.id == "self":
+                return GExpr.of(Poly.sym("self", e.attr))
             if isinstance(base, PyVal) and isinstance(base.v, dict) and e.attr in base.v:
                 return base.v[e.attr]
             if isinstance(base, TableRef):
@@ -1146,7 +1148,7 @@ class KInterp:
         if cls_ is not None and isinstance(e.func, ast.Attribute):
             v0 = e.func.value
             target = None
-            if isinstance(v0, ast.Name) and v0.id == "cls":
+            if isinstance(v0, ast.Name) and v0.id in ("cls", "self") and isinstance(st["env"].get(v0.id), PyVal):
                 if not e.args and not e.keywords:
                     cv = self.ix.method_const(cls_, e.func.attr)
                     if cv is not None:
